@@ -361,6 +361,11 @@ class Engine:
                 st.env[name] = z3.Const(f"ghost_{name}", sort_of(sortname))
             else:
                 st.env[name] = self.spec(Clause(init), st)
+        # hooks anchored at "@entry" run before the first statement (they do not depend on any statement's text)
+        for k, (when, anchor, ghost) in enumerate(c.hooks):
+            if anchor.strip() == "@entry":
+                self.hook_seen.add(k)
+                self.exec_ghost(ghost, st)
         body = extract.strip_docstring(self.fn.body)
         outs = self.exec_block(body, st)
         for o in outs:
